@@ -5,6 +5,7 @@ import TsVerif.C17.Whole
 import TsVerif.C17.MergeMultiLemmas
 import TsVerif.C17.MergeTerm
 import TsVerif.C17.IntersectLemmas
+import TsVerif.C17.Locals
 /-!
 # C17 — Highlight events are well nested and reproduce the source text exactly
 
@@ -26,7 +27,7 @@ Clause map (models: `TsVerif/C17/Model.lean`, `Merge.lean`; judges: `Judge.lean`
 | renderer does not panic on a well-formed stream | `render_total_of_wellFormed` | proved |
 | Source spans contiguous/increasing/covering, Start/End nested and closed | `merge_wellformed_partial` (model of the merge of ONE layer: `highlight_end_stack`, `emit_event`, `next_event`; tied by correspondence); `merge_multi_wellformed` (several layers: `sort_key`, `sort_layers`, `insert_layer`, `last_highlight_range`; no locals branch; the run provably finishes when injections refer to later layers of the table — `refsUp`, checked on every real case), `merge_multi_wellformed_partial` (any layer table, if the run finishes); both models tied by correspondence | proved for the models, judged on every real stream |
 | injected spans inside the content | `intersect_ranges_spec`, `injected_content_inside` (port of `intersect_ranges`: every content range is non-empty, inside a range of the parent layer, inside a content node and — unless include-children — clear of the node's children); that a layer's SPANS start inside its included ranges is a property of parsing with included ranges (C13), judged on every real stream by `judgeInjected` | ranges proved, spans judged |
-| local reference like definition | judged on every real stream (`judgeLocals`); the locals branch is not modelled | judge only |
+| local reference like definition | `local_ref_like_def`, `findDef_newest` (port of the locals branch for one layer, `Locals.lean`, tied by correspondence on layers with a locals query): a reference whose enclosing scopes up to the defining one all inherit and do not define the name takes the highlight stored for the newest admissible definition; also judged on every real stream (`judgeLocals`) | proved for the one-layer model, judged |
 
 Boundary conventions: the renderer adds the final newline whenever the last HTML *byte* is not a
 newline, so a text that already ends in a newline still gets one when a tag follows it; `judgeHtml`
@@ -352,5 +353,49 @@ example : intersectRanges [(0, 10), (14, 30)] [⟨2, 25, [(4, 6), (16, 18)]⟩] 
     chainOk 2 25 [(4, 6), (16, 18)] := by
   refine ⟨by decide, ?_⟩
   simp [chainOk]
+
+/-! ## Local references -/
+
+/-- Within a scope the NEWEST definition of the name whose value ends at or before the reference is
+the one that counts. -/
+theorem findDef_newest (name s : Nat) (pre post : List LDef) (d : LDef)
+    (hpre : ∀ x ∈ pre, ¬ (x.name = name ∧ s ≥ x.valueEnd)) (hd : d.name = name ∧ s ≥ d.valueEnd) :
+    findDef name s (pre ++ d :: post) = some d.hl := by
+  induction pre with
+  | nil => simp [findDef, hd]
+  | cons x r ih =>
+    have hx := hpre x (List.mem_cons_self)
+    simp only [List.cons_append, findDef, if_neg hx]
+    exact ih (fun y hy => hpre y (List.mem_cons_of_mem _ hy))
+
+/-- A name resolved as a local reference is highlighted like its definition: if the scopes between
+the reference and the defining scope all inherit and contain no admissible definition of the name,
+and the defining scope's newest admissible definition carries highlight `h`, then processing the
+`@local.reference` capture sets `reference_highlight` to `h` (the `HighlightStart` then carries
+`reference_highlight.or(current_highlight)`).  Holds for any scopes below. -/
+theorem local_ref_like_def (name s e node : Nat) (above below : List LScope) (sc : LScope) (h : Option Nat)
+    (r : LRun) (hr : r.scopes = above ++ sc :: below) (hnd : r.defP = false)
+    (habove : ∀ a ∈ above, a.inherits = true ∧ findDef name s a.defs = none)
+    (hsc : findDef name s sc.defs = some h) :
+    (applyLocal r ⟨s, e, node, .ref name true⟩).refHl = h := by
+  have key : ∀ (above : List LScope), (∀ a ∈ above, a.inherits = true ∧ findDef name s a.defs = none) →
+      applyLocal.refFound name s (above ++ sc :: below) = some h := by
+    intro above
+    induction above with
+    | nil => intro _; simp [applyLocal.refFound, hsc]
+    | cons a rest ih =>
+      intro ha
+      have h1 := ha a (List.mem_cons_self)
+      simp only [List.cons_append, applyLocal.refFound, h1.2, h1.1, if_true]
+      exact ih (fun x hx => ha x (List.mem_cons_of_mem _ hx))
+  simp only [applyLocal, hnd, Bool.false_eq_true, if_false, if_true, hr, key above habove, Option.getD_some]
+
+/-- non-vacuity: `x` defined in the outer block (highlight 7), referenced two inheriting scopes deeper;
+a non-inheriting scope in between hides it. -/
+example :
+    (applyLocal { scopes := [⟨true, 90, []⟩, ⟨true, 95, [⟨1, 20, some 3⟩]⟩, ⟨true, 99, [⟨0, 12, some 7⟩, ⟨0, 5, some 2⟩]⟩],
+                  refHl := none, defP := false } ⟨30, 31, 5, .ref 0 true⟩).refHl = some 7 ∧
+    (applyLocal { scopes := [⟨true, 90, []⟩, ⟨false, 95, []⟩, ⟨true, 99, [⟨0, 12, some 7⟩]⟩],
+                  refHl := none, defP := false } ⟨30, 31, 5, .ref 0 true⟩).refHl = none := by decide
 
 end TsVerif.C17
